@@ -267,8 +267,10 @@ func TestC13(t *testing.T) {
 		}
 		synctest.Test(t, func(t *testing.T) { c13Bounced(t, run, k, run.Rand(n+k)) })
 	}
-	if desc := map[string]any{"kind": "request-ids-under-load"}; run.Mine(n+9000, desc) {
-		c13Load(t, run, desc)
+	for k := 0; k < run.N(1, 4); k++ { // the thorough tier repeats it: its reach is a matter of volume
+		if desc := map[string]any{"kind": "request-ids-under-load", "round": k}; run.Mine(n+9000+k, desc) {
+			c13Load(t, run, desc)
+		}
 	}
 }
 
